@@ -105,6 +105,9 @@ func (u *Unit) computeCalls() []*Call {
 					}
 				case *ast.Ident:
 					cl.Name = f.Name
+					if v, isVar := info.Uses[f].(*types.Var); isVar {
+						cl.Name = CanonName(v) // a renamed closure variable keeps the name the tables know
+					}
 				case *ast.IndexExpr:
 					cl.Name = calleeName(c)
 					if se, ok := f.X.(*ast.SelectorExpr); ok {
@@ -119,6 +122,9 @@ func (u *Unit) computeCalls() []*Call {
 				}
 				if cl.Callee != nil {
 					cl.Key = FuncKey(cl.Callee)
+					if k, renamed := funcAlias[cl.Callee.Origin()]; renamed {
+						cl.Name = k[strings.LastIndex(k, ".")+1:] // the name the tables know a renamed function by
+					}
 				} else {
 					cl.Key = "value:" + cl.Name
 				}
